@@ -90,6 +90,22 @@ func checkC08(c WKCase, st *stats.Collector) error {
 		// Info over a source with a transient read error somewhere in the summary or footer: whenever Info
 		// answers without an error - at once, or when asked again - it is the Info of this file
 		truth := infoSnapshot(info)
+		// Info through seekable sources that deliver a few bytes per Read (range requests, block-wise wrappers)
+		for _, sizes := range [][]int{{1}, {7, 3}, {64}, {1000}} {
+			src := &faultio.SeekSource{Source: faultio.Source{Data: file, FailAt: -1, Sizes: sizes}}
+			frd, err := mcap.NewReader(src)
+			if err != nil {
+				return pk.Failf("info", "NewReader over a source delivering %v bytes per Read: %v", sizes, err)
+			}
+			fi, err := frd.Info()
+			frd.Close()
+			if err != nil {
+				return pk.Failf("info", "Info over a source delivering %v bytes per Read: %v", sizes, err)
+			}
+			if got := infoSnapshot(fi); got != truth {
+				return pk.Failf("info-delivery-dependent", "Info over a source delivering %v bytes per Read differs from Info over a plain source:\n got:  %.500s\n want: %.500s", sizes, got, truth)
+			}
+		}
 		if d.DataEndIdx >= 0 {
 			from := int(d.Records[d.DataEndIdx].Offset)
 			stride := 1 + (len(file)-from)/9
